@@ -6,6 +6,16 @@ VERIF = os.path.dirname(os.path.dirname(os.path.abspath(__file__)))
 rnd, outroot, wtprefix = sys.argv[1], sys.argv[2], sys.argv[3]
 props = [json.loads(l) for l in open(os.path.join(VERIF, "properties.jsonl"))]
 EMPH = {
+ "14": ("This round: a WRONG ASSUMPTION ABOUT A LIBRARY API. Make a plausible change (refactoring, modernisation, small feature, clean-up) whose "
+       "code reads naturally but relies on a subtly wrong belief about the Go standard library or one of the vendored dependencies: what "
+       "append does to a slice that has spare capacity, bytes.Buffer / strings.Builder reuse and the lifetime of Bytes(), io.Reader.Read versus "
+       "io.ReadFull, binary.Read / binary.Write on structs, json / yaml (un)marshalling details (unexported or zero fields, numbers as float64, "
+       "map key encoding, partial results on error), net.IP's 4- and 16-octet forms and To4 / To16 / Equal / String, net.Conn deadlines and "
+       "partial writes, strings.Split / Fields / Trim semantics, strconv bit sizes, integer conversion and shifts, time zones and monotonic "
+       "clocks, map iteration order, sort stability, defer and closures in loops, select with default, sync.Pool / sync.Once / atomic semantics, "
+       "os.Stat versus Lstat, file open flags, flag package parsing rules. The code must work in the common case and fail in the case where the "
+       "belief is wrong. Different mechanism, code site and trigger from everything listed; not detectable by a data-race detector alone; "
+       "ordinary traffic with default settings must look healthy."),
  "13": ("This round: TWINS. This code base is full of near-duplicates: the IPFIX and NetFlow v9 decoders, template caches and JSON encoders; "
        "the four protocol listeners and workers in ./vflow; IPv4 versus IPv6 branches; plain versus options templates (scope fields versus "
        "ordinary fields); flow samples versus counter samples and their expanded forms; the IPFIX and sFlow mirror paths; tcp versus udp in the "
